@@ -69,13 +69,13 @@ theorem setterArgs_argOK (c : Cfg) (hall : c.affinityAll = CPU_SETSIZE) (pid i :
 theorem sigOf_good {c : Cfg} (hg : c.Good) (m : SigMethod) : sigOf c m = sigNumber m := by
   cases m <;> simp [sigOf, sigNumber, hg.sigStop, hg.sigCont, hg.sigTerm, hg.sigKill]
 
-instance : DecidablePred KEv.OK := fun e => by
+instance (nt : Bool) : DecidablePred (KEv.OK · nt) := fun e => by
   cases e <;> simp only [KEv.OK] <;> infer_instance
 
-instance : DecidablePred Ev.OK := fun e => by
+instance (nt : Bool) : DecidablePred (Ev.OK · nt) := fun e => by
   cases e <;> simp only [Ev.OK] <;> infer_instance
 
-instance (h : List Ev) : Decidable (HistOK h) := by
+instance (nt : Bool) (h : List Ev) : Decidable (HistOK nt h) := by
   unfold HistOK; infer_instance
 
 end Psutil.C01
